@@ -61,6 +61,30 @@ def _same_names_other_content(doc):
     return dataclasses.replace(doc, containers=tuple(conts))
 
 
+def loose_docs():
+    """Documents outside the schema that the loader nevertheless accepts; whatever it makes of them, it has to make the same of them after any
+    history.  -> [(label, xml, prefix, root)]"""
+    from mc.spec import El, doc_tree
+    out = []
+    doc = base_docs()[3]
+    for first in ("IntegerDataEncoding", "FloatDataEncoding"):
+        tree = doc_tree(doc)
+
+        def walk(e):
+            if e.tag in ("IntegerParameterType", "FloatParameterType"):
+                for i, k in enumerate(e.children):
+                    if k.tag in ("IntegerDataEncoding", "FloatDataEncoding"):
+                        other = (El("FloatDataEncoding", {"sizeInBits": "32"}) if k.tag == "IntegerDataEncoding"
+                                 else El("IntegerDataEncoding", {"sizeInBits": "32", "encoding": "unsigned"}))
+                        e.children[i:i + 1] = [k, other] if k.tag == first else [other, k]
+                        break
+            for k in e.children:
+                walk(k)
+        walk(tree)
+        out.append((f"two-encodings({first} first)", render_xml(doc, "xtce", tree=tree), "xtce", doc.root))
+    return out
+
+
 def load_bytes(xml: bytes, prefix, root="CCSDSPacket"):
     from space_packet_parser.xtce.definitions import XtcePacketDefinition
     return XtcePacketDefinition.from_xtce(io.BytesIO(xml), xtce_ns_prefix=prefix, root_container_name=root)
@@ -104,8 +128,13 @@ def emit_baselines():
     import logging
     logging.disable(logging.CRITICAL)
     i = int(sys.argv[1])
-    doc = base_docs()[i]
-    d = load_bytes(render_xml(doc, "xtce"), "xtce", doc.root)
+    nb = len(base_docs())
+    if i >= nb:
+        _, xml, prefix, root = loose_docs()[i - nb]
+        d = load_bytes(xml, prefix, root)
+    else:
+        doc = base_docs()[i]
+        d = load_bytes(render_xml(doc, "xtce"), "xtce", doc.root)
     print(json.dumps({"digest": canon_digest(d)}))
 
 
@@ -113,7 +142,7 @@ def baselines():
     out = []
     env = dict(os.environ, PYTHONDONTWRITEBYTECODE="1")
     procs = []
-    for i in range(len(base_docs())):
+    for i in range(len(base_docs()) + len(loose_docs())):
         procs.append(subprocess.Popen([sys.executable, "-c", "from mc.checks.c16 import emit_baselines; emit_baselines()", str(i)],
                                       cwd=VERIF_ROOT, env=env, stdout=subprocess.PIPE, stderr=subprocess.PIPE, text=True))
     for p in procs:
@@ -139,10 +168,11 @@ def _task_spellings(task):
             variants = [(None, False), (None, True), ("all", False), ("all", True)] + [({i}, ws) for i in task["positions"] for ws in task["ws"]]
             variants = [v + ("lower", False) for v in variants] + [(None, False, "title", False), (None, True, "upper", False), ("all", False, "upper", False),
                                                                     ("all", True, "title", False), (None, False, "lower", True), ("all", True, "upper", True)]
-            for comments, ws, bool_case, omit in variants:
+            variants = [v + ("plain",) for v in variants] + [(c, w, "lower", False, ts) for ts in ("charref", "entity", "cdata") for c, w in ((None, False), ("all", True))]
+            for comments, ws, bool_case, omit, text_style in variants:
                 case = {"doc": di, "style": style, "comments": "all" if comments == "all" else sorted(comments) if comments else None,
-                        "whitespace": ws, "bool_case": bool_case, "omit_defaults": omit}
-                xml = render_xml(doc, style, comments=comments, whitespace=ws, bool_case=bool_case, omit_defaults=omit)
+                        "whitespace": ws, "bool_case": bool_case, "omit_defaults": omit, "text_style": text_style}
+                xml = render_xml(doc, style, comments=comments, whitespace=ws, bool_case=bool_case, omit_defaults=omit, text_style=text_style)
                 t.evals += 1
                 case["form"] = ("BytesIO", "binary file object", "text file object", "str path", "pathlib.Path")[t.evals % 5]
                 try:
@@ -199,6 +229,8 @@ def op_menu():
     ops.append(("latefail:1:q:dangling-typeRef", render_xml(docs_[1], "q", tree=corrupt(docs_[1], "Parameter", "parameterTypeRef")), "q", docs_[1].root, None, False))
     ops.append(("malformed:truncated", render_xml(docs_[0], "xtce")[:400], "xtce", "CCSDSPacket", None, False))
     ops.append(("malformed:not-xml", b"this is not xml", "xtce", "CCSDSPacket", None, False))
+    for k, (label, xml, prefix, root) in enumerate(loose_docs()):
+        ops.append((f"ok:{len(docs_) + k}:xtce:{label}", xml, prefix, root, len(docs_) + k, True))
     return ops
 
 
@@ -328,8 +360,8 @@ def run(ctx):
         "exhaustive": True,
         "bound": (f"spellings: {len(docs_)} base documents x 8 namespace renderings (prefix xtce, prefix q, an upper-case prefix XTCE, default namespace, none, none + xmlns:xsi, and the namespace bound twice on the root with the loader told the binding the elements do not use) x a comment at every inter-element position "
                   f"({'every position for prefix xtce/default/none, every third for q and none+xsi' if ctx.quick else 'every position'}), all at once, "
-                  f"x whitespace variants x boolean attribute spellings true, True, TRUE x (every attribute written | attributes that equal their documented default left out), handed over in rotation as BytesIO / binary file object / text file object / str path / pathlib.Path; histories: every sequence of <= {3 if ctx.quick else 4} operations over a {nops}-operation menu "
-                  "(11 successful loads in different namespace conventions, two of them of documents with identical names and shape but different content, 3 wrong-prefix loads, 4 loads that fail late inside the container/parameter set, 2 malformed inputs) followed by every target load (histories of length 4: every third target); "
+                  f"x whitespace variants x boolean attribute spellings true, True, TRUE x (every attribute written | attributes that equal their documented default left out) x character spellings (plain | numeric character references in text and attribute values | general entities of an internal DTD subset | CDATA sections), handed over in rotation as BytesIO / binary file object / text file object / str path / pathlib.Path; histories: every sequence of <= {3 if ctx.quick else 4} operations over a {nops}-operation menu "
+                  "(13 successful loads in different namespace conventions, two of them of documents with identical names and shape but different content, 2 loads of documents whose types carry two encodings in either order, 3 wrong-prefix loads, 4 loads that fail late inside the container/parameter set, 2 malformed inputs) followed by every target load (histories of length 4: every third target); "
                   "breadth-first closure over the real class-level namespace state to a fixed point"),
         "rule": ("one evaluation = one load compared with the fresh-interpreter canonical form; states = reachable class-level (nsmap, prefix) states "
                  "(complete); transitions = loads performed; traces = histories replayed"),
@@ -354,7 +386,8 @@ def replay(case):
     comments = case.get("comments")
     comments = "all" if comments == "all" else set(comments) if comments else None
     doc = base_docs()[case["doc"]]
-    xml = render_xml(doc, case["style"], comments=comments, whitespace=case["whitespace"], bool_case=case.get("bool_case", "lower"), omit_defaults=case.get("omit_defaults", False))
+    xml = render_xml(doc, case["style"], comments=comments, whitespace=case["whitespace"], bool_case=case.get("bool_case", "lower"), omit_defaults=case.get("omit_defaults", False),
+                     text_style=case.get("text_style", "plain"))
     try:
         forms = ("BytesIO", "binary file object", "text file object", "str path", "pathlib.Path")
         d = load_form(xml, ns_prefix_arg(case["style"]), doc.root, forms.index(case["form"]) if case.get("form") in forms else 0)
